@@ -9,6 +9,7 @@ pub struct Prop {
 pub mod c01;
 pub mod c02;
 pub mod c03;
+pub mod c04;
 pub mod c10;
 pub mod c12;
 pub mod c13;
@@ -19,6 +20,7 @@ pub const ALL: &[Prop] = &[
     Prop { id: "C01", run: c01::run, parts: c01::parts },
     Prop { id: "C02", run: c02::run, parts: c02::parts },
     Prop { id: "C03", run: c03::run, parts: c03::parts },
+    Prop { id: "C04", run: c04::run, parts: c04::parts },
     Prop { id: "C10", run: c10::run, parts: c10::parts },
     Prop { id: "C12", run: c12::run, parts: c12::parts },
     Prop { id: "C13", run: c13::run, parts: c13::parts },
